@@ -590,6 +590,9 @@ class Interp:
         elif k == "tuple":
             for i in range(len(t["elems"])):
                 self.seed_arg(st, self.add_proj(loc, i), t["elems"][i], depth + 1)
+        elif k == "ref":
+            # a borrowed guard still witnesses that its lock is held
+            self.seed_arg(st, self.add_proj(loc, "*"), t["ty"], depth + 1)
 
     def run_fn(self, fn, args, st, depth):
         if depth > DEPTH_LIMIT:
@@ -1094,9 +1097,29 @@ class Interp:
         if t is None or t["k"] != "adt" or t["path"] not in self.rawlock_adts():
             return
         recv = self.recv_name(self.canon(owner))
+        if self.is_exclusive(loc):
+            # reached only through `&mut`/owned paths: the borrow checker guarantees exclusivity, no hold needed
+            self.emit(st, {"k": "EXCL_ACCESS", "recv": recv}, fn, line)
+            return
         ev = self.emit(st, {"k": "ASSUME", "op": "cell_mut" if mut else "cell_ref", "recv": recv,
                             "mode": "W" if mut else "RW"}, fn, line)
         self.check_assume(st, ev)
+
+    def is_exclusive(self, loc):
+        """True iff every dereference on the access path goes through `&mut` (or an owned Box)."""
+        if loc[0] != "O":
+            return False
+        t = self.optype.get(loc[1])
+        for p in loc[2]:
+            if t is None:
+                return False
+            if p == "*":
+                if t["k"] == "ref" and not t["mut"]:
+                    return False
+                if t["k"] == "ptr":
+                    return False
+            t = self.proj_ty(t, p)
+        return True
 
     def rawlock_adts(self):
         if not hasattr(self, "_rawlock_adts"):
